@@ -159,6 +159,102 @@ theorem C07_wtxid_covers_witness (c : Coin) (a b : Tx) (ha : a.WF) (hb : b.WF) (
   · simp [Tx.wHash, asBin_eq_stream, C07_ser_is_wire a ha, Except.map]
   · simp [Tx.wHash, asBin_eq_stream, C07_ser_is_wire b hb, Except.map]
 
+/-! ## hex and binary forms -/
+
+theorem val_digit : ∀ n : Fin 16, Hex.val? (Hex.digit n.val) = some n.val := by decide
+
+theorem decode_encode : ∀ b : Bytes, Hex.decodeChars (Hex.encodeChars b) = some b
+  | [] => rfl
+  | x :: bs => by
+    have h1 := val_digit ⟨x.toNat / 16, by have := x.toNat_lt; omega⟩
+    have h2 := val_digit ⟨x.toNat % 16, by omega⟩
+    simp only at h1 h2
+    simp only [Hex.encodeChars, Hex.decodeChars, h1, h2, decode_encode bs, bind, Option.bind, pure]
+    have : 16 * (x.toNat / 16) + x.toNat % 16 = x.toNat := by omega
+    rw [this, UInt8.ofNat_toNat]
+
+theorem h2b_b2h (b : Bytes) : Tx.h2b (Tx.b2h b) = .ok b := by
+  simp [Tx.h2b, Tx.b2h, decode_encode]
+
+theorem txOut_parse_nil : TxOut.parse [] = .error .structError := by
+  simp [TxOut.parse, Gen.Formats.txOut_parse, parseStruct, parseStructGo, tbl_Q, parseLetter, unpackLE]
+
+theorem parseUnspents_nil (n : Nat) (hn : 1 ≤ n) : ∃ e, Tx.parseUnspents n [] = .error e := by
+  cases n with
+  | zero => omega
+  | succ k => exact ⟨.structError, by simp [Tx.parseUnspents, parseN, txOut_parse_nil]⟩
+
+theorem fromBin_ser (c : Coin) (tx : Tx) (hwf : tx.WF) (hne : 1 ≤ tx.ins.length) :
+    Tx.fromBin c (Spec.Wire.ser tx) = .ok (tx, []) := by
+  have h := tx_law c tx _ [] ⟨hwf, hne⟩ (C07_ser_is_wire tx hwf)
+  rw [List.append_nil] at h
+  obtain ⟨e, he⟩ := parseUnspents_nil tx.ins.length hne
+  simp [Tx.fromBin, h, he]
+
+/-- C07.bin_rt: `from_bin(as_bin(tx)) = tx` (no unspents) -/
+theorem C07_bin_rt (c : Coin) (tx : Tx) (hwf : tx.WF) (hne : 1 ≤ tx.ins.length) :
+    ∃ b, tx.asBin = .ok b ∧ Tx.fromBin c b = .ok (tx, []) :=
+  ⟨_, by rw [asBin_eq_stream]; exact C07_ser_is_wire tx hwf, fromBin_ser c tx hwf hne⟩
+
+/-- C07.hex_rt: `from_hex(as_hex(tx)) = tx`, and the hex text is that of the wire format -/
+theorem C07_hex_rt (c : Coin) (tx : Tx) (hwf : tx.WF) (hne : 1 ≤ tx.ins.length) :
+    tx.asHex = .ok (Tx.b2h (Spec.Wire.ser tx)) ∧ Tx.fromHex c (Tx.b2h (Spec.Wire.ser tx)) = .ok (tx, []) := by
+  constructor
+  · simp [Tx.asHex, asBin_eq_stream, C07_ser_is_wire tx hwf, Except.map]
+  · simp [Tx.fromHex, h2b_b2h, fromBin_ser c tx hwf hne]
+
+/-! ## the unspents extension -/
+
+theorem missingUnspents_all_present (tx : Tx) (us : List TxOut) (hlen : us.length = tx.ins.length) :
+    tx.missingUnspents (us.map some) = false := by
+  unfold Tx.missingUnspents
+  split
+  · rfl
+  · have h1 : ((us.map some).length != tx.ins.length) = false := by simp [hlen]
+    rw [h1, Bool.false_or, List.any_eq_false]
+    intro idx hidx
+    have hi : idx < us.length := by rw [hlen]; exact List.mem_range.mp hidx
+    simp [hi]
+
+/-- C07.unspents_ext_rt: a transaction streamed with its spent outputs appended (`include_unspents=True`) reads back
+with the same transaction and the same unspents, for non-zero amounts -/
+theorem C07_unspents_ext_rt (c : Coin) (tx : Tx) (hwf : tx.WF) (hne : 1 ≤ tx.ins.length) (us : List TxOut)
+    (hlen : us.length = tx.ins.length) (hus : ∀ u ∈ us, u.WF ∧ u.value ≠ 0) :
+    ∃ b, tx.asBin (us.map some) true = .ok b ∧ Tx.fromBin c b = .ok (tx, us.map some) := by
+  have hext := streamList_eq TxOut.stream Spec.Wire.txout us (fun u hu => TxOut.stream_eq u (hus u hu).1)
+  have hsu : Tx.streamUnspents (us.map some) = .ok (us.map Spec.Wire.txout).flatten := by
+    unfold Tx.streamUnspents
+    rw [streamList_map]
+    exact hext
+  refine ⟨Spec.Wire.ser tx ++ (us.map Spec.Wire.txout).flatten, ?_, ?_⟩
+  · simp [Tx.asBin, C07_ser_is_wire tx hwf, missingUnspents_all_present tx us hlen, hsu, bind, Except.bind, pure, Except.pure]
+  · have h := tx_law c tx _ (us.map Spec.Wire.txout).flatten ⟨hwf, hne⟩ (C07_ser_is_wire tx hwf)
+    have h2 := parseN_txOut us _ [] (fun u hu => (hus u hu).1.script) hext
+    rw [List.append_nil] at h2
+    have h3 : us.map (fun o => if o.value = 0 then none else some o) = us.map some := by
+      apply List.map_congr_left
+      intro u hu
+      simp [(hus u hu).2]
+    simp [Tx.fromBin, h, Tx.parseUnspents, ← hlen, h2, h3]
+
+/-! ## spendables -/
+
+structure Spendable.WF (s : Spendable) : Prop where
+  value : U64 s.coinValue
+  script : LenOk s.script
+  hash : s.txHash.length = 32
+  index : U32 s.txOutIndex
+  available : U64 s.blockIndexAvailable
+  seemsSpent : s.doesSeemSpent = 0 ∨ s.doesSeemSpent = 1
+  spent : U64 s.blockIndexSpent
+
+/-- C07.spendable_dict_rt: `from_dict(as_dict(s)) = s` for every spendable -/
+theorem C07_spendable_dict_rt (s : Spendable) : Spendable.fromDict s.asDict = .ok s := by
+  cases s
+  simp [Spendable.fromDict, Spendable.asDict, Tx.b2hRev, h2b_b2h, bind, Except.bind, pure, Except.pure]
+  rw [← Tx.b2h, h2b_b2h]
+  simp
+
 /-! ## non-vacuity -/
 
 def exIn : TxIn := ⟨List.replicate 32 0x11, 7, [0x51], 0xFFFFFFFE, [[], [1, 2], []]⟩
